@@ -82,6 +82,14 @@ def run(ctx):
     metas = []
     for label, whole in cases:
         frags = whole.handle_tx_fragmentation()
+        if len(metas) % 7 == 0:
+            # fragmenting does not consume or alter the message: a second run gives the same fragments
+            again = whole.handle_tx_fragmentation()
+            a1 = [f.hl_packet.serialize() for f in frags]
+            a2 = [f.hl_packet.serialize() for f in again]
+            if a1 != a2 or [int(f.ll_header) for f in frags] != [int(f.ll_header) for f in again]:
+                ctx.counterexample("fragmenting-twice-differs", dict(case=label), [hx(x)[:24] for x in a1], [hx(x)[:24] for x in a2],
+                                   "fragmenting the same message a second time gives different fragments")
         hdr = whole.hl_packet.header
         data = bytes(whole.hl_packet.data)
         lines.append("frag %d %s" % (int(hdr), hx(data)))
